@@ -1,6 +1,7 @@
 //! Verification harness for flurry. Subcommands print one line `JSON {...}` (the result) and,
 //! for each failing input found, a line `FOUND <property> <replay text on one line>`.
 mod api_check;
+mod binsim;
 mod bulk;
 mod capacity;
 mod conc;
@@ -322,6 +323,76 @@ fn load_site_fns(gen_json: &str) {
             }
         }
     }
+}
+
+/// step-by-step conformance of Model/BinProto.v: writes a Coq case file
+fn cmd_binsim(args: &[String]) {
+    // binsim <seed> <n_programs> <schedules_per_program> <gen.json> <out.v> [prog sched]
+    use conc::*;
+    use hooks::Policy;
+    let seed: u64 = args[0].parse().unwrap();
+    let n: u64 = args[1].parse().unwrap();
+    let scheds: u64 = args[2].parse().unwrap();
+    let sites = binsim::SiteTable::load(&args[3]);
+    let out_v = &args[4];
+    let only: Option<(u64, u64)> = if args.len() >= 7 { Some((args[5].parse().unwrap(), args[6].parse().unwrap())) } else { None };
+    silence_panics();
+    hooks::install();
+    let mut rng = types::SplitMix64(seed ^ 0xB1B1);
+    let mut coq = String::from("From Flurry Require Import Model.BinConf.\nImport ListNotations.\nOpen Scope Z_scope.\n");
+    let (mut runs, mut cases, mut steps, mut modelled, mut lock_waits, mut found) = (0u64, 0u64, 0u64, 0u64, 0u64, 0u64);
+    let mut contended = 0u64;
+    let mut unknown = std::collections::BTreeSet::<String>::new();
+    let mut samples = Vec::new();
+    for pi in 0..n {
+        let mut prng = rng.fork();
+        let prog = binsim::gen_binsim_program(&mut prng);
+        for si in 0..scheds {
+            let sseed = prng.next();
+            if let Some((op, os)) = only {
+                if op != pi || os != si {
+                    continue;
+                }
+            }
+            let stick = [0u64, 4, 8, 12, 14][(si % 5) as usize];
+            let r = binsim::run_one(&prog, Policy::Random(types::SplitMix64(sseed), stick));
+            runs += 1;
+            let o = binsim::case_of(&prog, &r, &sites);
+            steps += o.steps as u64;
+            modelled += o.modelled_steps as u64;
+            lock_waits += o.lock_waits;
+            if o.lock_waits > 0 {
+                contended += 1;
+            }
+            for u in o.unknown_sites {
+                unknown.insert(u);
+            }
+            let mut fails = r.failures.clone();
+            fails.extend(o.failures);
+            for f in fails.iter().take(1) {
+                found += 1;
+                println!("FOUND C01 binsim seed={} prog={} sched={} || {} || {}", seed, pi, si, f.replace('\n', " "), program_text(&prog));
+            }
+            if let Some(c) = o.coq {
+                println!("CASE {} binsim seed={} prog={} sched={} || {} || trace: {}", cases, seed, pi, si, program_text(&prog), trace_text(&r.trace));
+                coq.push_str(&format!("Definition c{} : case := {}.\nEval vm_compute in ({}%N, conform c{}).\n", cases, c, cases, cases));
+                if samples.len() < 2 && r.lock_waits > 0 {
+                    samples.push(json!({"program": program_text(&prog), "scheduler_steps": r.steps, "lock_waits": r.lock_waits}));
+                }
+                cases += 1;
+            }
+        }
+    }
+    for u in &unknown {
+        found += 1;
+        println!("FOUND C15 binsim: shared access at {} is not in the regenerated site table (Gen/GenAtomics.v)", u);
+    }
+    std::fs::write(out_v, coq).expect("write case file");
+    println!(
+        "JSON {}",
+        json!({"runs": runs, "cases": cases, "scheduler_steps": steps, "modelled_steps": modelled, "lock_waits": lock_waits,
+               "contended_runs": contended, "found": found, "samples": samples})
+    );
 }
 
 /// directed race templates: scripts over function entries with enumerated step offsets
@@ -820,6 +891,7 @@ fn main() {
         "trav" => cmd_trav(&args[2..]),
         "travseq" => cmd_travseq(&args[2..]),
         "directed" => cmd_directed(&args[2..]),
+        "binsim" => cmd_binsim(&args[2..]),
         "atomics" => cmd_atomics(&args[2..]),
         "panic" => cmd_panic(&args[2..]),
         "bulk" => cmd_bulk(&args[2..]),
